@@ -15,7 +15,7 @@ partial def parseTy (j : Json) : Except String Ty := do
       let dims ← ds.toList.mapM (fun d => match d with
         | .null => pure Dim.unk
         | .str s => pure (Dim.sym s)
-        | .num _ => match d.getNat? with
+        | .num _ => match d.getInt? with
           | .ok n => pure (Dim.const n)
           | .error e => throw e
         | _ => throw "bad dim")
